@@ -1,6 +1,6 @@
 (* Props/C07.v -- property C07: INVITE client: non-2xx finals are ACKed by the transaction, 2xx left to the user *)
 From Coq Require Import List NArith.
-From EZK Require Import Model.C12o Proofs.C12o Lib.Bytes Gen.Tables Model.Tsx Model.C07 Proofs.C05 Proofs.C07.
+From EZK Require Import Model.Forms9 Proofs.Forms9 Model.C12o Proofs.C12o Lib.Bytes Gen.Tables Model.Tsx Model.C07 Proofs.C05 Proofs.C07.
 Import ListNotations.
 Open Scope N_scope.
 
@@ -73,3 +73,13 @@ Proof. exact unbounded_refuses_nothing. Qed.
 
 Theorem C07_bounded_inbox_refuted : forall c n, (c < n)%nat -> (0 < refused_of (Some c) n)%nat.
 Proof. exact bounded_refuses. Qed.
+
+(* "top Via ... equal the INVITE's": the ACK's Via is a copy of the INVITE's - also when the INVITE went out with a rewritten sent-by *)
+Theorem C07_ack_via_guard : ack_via_cloned = true.
+Proof. reflexivity. Qed.
+
+Theorem C07_ack_via_is_the_invites : ack_via_cloned = true -> forall (A : Type) (invite_via from_transport : A), ack_via invite_via from_transport = invite_via.
+Proof. exact ack_via_here. Qed.
+
+Theorem C07_ack_via_rebuilt_refuted : forall (A : Type) (invite_via from_transport : A), invite_via <> from_transport -> ack_via_form false invite_via from_transport <> invite_via.
+Proof. exact ack_via_rebuilt. Qed.
